@@ -95,13 +95,13 @@ bool Multiplication_Floating_Point_Expression<FP_Interval_Type, FP_Format>
   // Here we do the actual computation.
   // For optimizing, we store the relative error directly into result.
   if (intervalize_first) {
-    relative_error(linearized_second_operand, result);
+    this->relative_error(linearized_second_operand, result);
     linearized_second_operand *= intervalized_first_operand;
     result *= intervalized_first_operand;
     result += linearized_second_operand;
   }
   else {
-    relative_error(linearized_first_operand, result);
+    this->relative_error(linearized_first_operand, result);
     linearized_first_operand *= intervalized_second_operand;
     result *= intervalized_second_operand;
     result += linearized_first_operand;
